@@ -3,10 +3,10 @@ import AioModel.C05
 /-!
 Driver commands of property C05.
 
-`run <keepaliveMs>,<lingerMs> <progs> <oracle> <event>…` → observations after every event,
+`run <keepaliveMs>,<lingerMs>,<readBufsize> <progs> <oracle> <event>…` → observations after every event,
 joined by ` | `.
 * progs: `;`-separated handler programs (`-` = none), ops separated by `.`:
-  `S<ms>` `R` `P` `W` and a final `ok|fc|E403|Ex|Et|Ec|none`
+  `S<ms>` `R` `P` (prepare+write) `Q` (prepare only) `W` and a final `ok|fc|E403|Ex|Et|Ec|none`
 * oracle: `;`-separated parser calls (`-` = none), tokens separated by `,`:
   `p<idx>.<chunks>.<eof><exc>`, `m<has><close><v11><vge11><nostream><expect><eof><exc><badurl>.<chunks>`,
   `u<0|1>`, `t<tailLen>`, `!<lost>` (raised), `_` (call without any token)
@@ -21,7 +21,8 @@ def bit (c : Char) : Option Bool := if c == '1' then some true else if c == '0' 
 def parseOp (t : String) : Option HOp :=
   match t with
   | "R" => some .read
-  | "P" => some .prepare
+  | "P" => some (.prepare true)
+  | "Q" => some (.prepare false)
   | "W" => some .write
   | "ok" => some (.fin .ok)
   | "fc" => some (.fin .fc)
@@ -99,14 +100,14 @@ def runEvents : St → List String → List String → Option (List String)
 def handle : List String → String
   | "run" :: cfg :: progs :: oracle :: events =>
     match cfg.splitOn ",", parseProgs progs, parseOracle oracle with
-    | [ka, li], some progs, some oracle =>
-      match ka.toNat?, li.toNat? with
-      | some ka, some li =>
-        let s := init { keepaliveMs := ka, lingerMs := li } progs oracle
+    | [ka, li, rb], some progs, some oracle =>
+      match ka.toNat?, li.toNat?, rb.toNat? with
+      | some ka, some li, some rb =>
+        let s := init { keepaliveMs := ka, lingerMs := li, readBuf := rb } progs oracle
         match runEvents s events [] with
         | some outs => " | ".intercalate outs
         | none => "bad-op"
-      | _, _ => "bad-op"
+      | _, _, _ => "bad-op"
     | _, _, _ => "bad-op"
   | _ => "bad-op"
 
